@@ -502,7 +502,7 @@ PROPS["C17"] = {
                   "build_snapshot / build_timestamp); differential run over random repositories with custom data and unknown members.",
     "level_note": "The model treats the delegation structure as one opaque value, as the editor does (it is cloned and written "
                   "back); that the re-serialised delegated documents still verify is checked by re-loading (signatures are over "
-                  "the canonical form, C11/C12). The CLI route () is not driven; it calls the same library path.",
+                  "the canonical form, C11/C12). The CLI route (tuftool update) is not driven; it calls the same library path.",
     "trusted": ["the editor model (Tough/Model/Editor.lean) is a hand transcription of tough/src/editor/{mod,targets}.rs, checked only by correspondence"],
     "assumptions": [],
 }
